@@ -102,6 +102,27 @@ func genStreams(c *vf.Ctx) []stream {
 			add("wellformed-unauthorized", fmt.Sprintf("well-formed %s command, %s", pl.name, cr.name), 2, frame(cmd), 250, 1)
 		}
 	}
+	// well-formed, state-changing commands presented by authenticated users whose
+	// permissions do not cover them (read-only, backup, status users; the two
+	// read-replica join permissions asking for a *voting* join): no effect allowed
+	limited := []string{"st", "rd", "q", "bk", "jr", "jo"}
+	for _, pl := range payloads {
+		switch pl.name {
+		case "EXECUTE", "REQUEST", "LOAD", "LOAD_CHUNK", "REMOVE_NODE":
+		default:
+			continue
+		}
+		for _, u := range limited {
+			cmd := proto.Clone(pl.cmd).(*cproto.Command)
+			cmd.Credentials = &cproto.Credentials{Username: u, Password: "pw-" + u}
+			add("wellformed-underprivileged", fmt.Sprintf("well-formed %s command by user %s (correct password, lacks the permission)", pl.name, u), 2, frame(cmd), 250, 1)
+		}
+	}
+	for _, u := range limited {
+		cmd := &cproto.Command{Type: cproto.Command_COMMAND_TYPE_JOIN, Credentials: &cproto.Credentials{Username: u, Password: "pw-" + u},
+			Request: &cproto.Command_JoinRequest{JoinRequest: &cmdproto.JoinRequest{Id: "ghost-" + u, Address: "127.0.0.1:1", Voter: true}}}
+		add("wellformed-underprivileged", fmt.Sprintf("well-formed JOIN(voter) command by user %s (correct password, lacks the permission)", u), 2, frame(cmd), 250, 1)
+	}
 	// hollow payloads: the right payload message for the command type, but with
 	// none of its fields set (nil inner Request, no data, empty ids), presented by
 	// an authorized sender and by an anonymous one: the handlers must cope with
@@ -283,12 +304,14 @@ func send(addr string, s stream) (sent int64, note string) {
 }
 
 func run(c *vf.Ctx) {
-	c.Rule("stream = bytes written to the node's inter-node (mux) port after a mux header byte: every cluster command type with a missing payload x {no, right, wrong} credentials; every payload-carrying command type with a hollow payload (the right message with no field set, a payload of another type, statements without SQL, nil parameters) x {authorized sender, anonymous}; every command type with a real, state-changing or data-reading payload x {no credentials, empty credentials, unknown user, wrong password} (must be refused without effect); 64-bit length prefixes 0..2^64-1 followed by 0/1/64 bytes; valid length + random protobuf bytes; random bytes on registered and unregistered mux headers; bit-flipped well-formed frames; truncated frame held open; 600 idle connections; 300 connections announcing 1 GiB each. One real rqlited process (credential store configured, ulimit -v 12 GiB) receives them one after the other; after each stream: process alive, /readyz, a write + read over HTTP, row count as expected, VmRSS and Go heap (HeapSys/HeapInuse from /debug/vars). non-trivial = stream of a class other than pure random bytes; distinct by stream bytes")
+	c.Rule("stream = bytes written to the node's inter-node (mux) port after a mux header byte: every cluster command type with a missing payload x {no, right, wrong} credentials; every payload-carrying command type with a hollow payload (the right message with no field set, a payload of another type, statements without SQL, nil parameters) x {authorized sender, anonymous}; every command type with a real, state-changing or data-reading payload x {no credentials, empty credentials, unknown user, wrong password} (must be refused without effect); state-changing commands and voting joins by authenticated users whose permissions (status, ready, query, backup, join-read-replica, join-read-only) do not cover them; 64-bit length prefixes 0..2^64-1 followed by 0/1/64 bytes; valid length + random protobuf bytes; random bytes on registered and unregistered mux headers; bit-flipped well-formed frames; truncated frame held open; 600 idle connections; 300 connections announcing 1 GiB each. One real rqlited process (credential store configured, ulimit -v 12 GiB) receives them one after the other; after each stream: process alive, /readyz, a write + read over HTTP, row count as expected, VmRSS and Go heap (HeapSys/HeapInuse from /debug/vars). non-trivial = stream of a class other than pure random bytes; distinct by stream bytes")
 	c.Assume("memory oracle: growth of HeapInuse or VmRSS across one stream must stay below bytes sent + 256 MiB (measured while the connections are still open for length-prefix streams)")
 	tmp := vf.TempDir("c35")
 	defer os.RemoveAll(tmp)
 	authFile := filepath.Join(tmp, "auth.json")
-	os.WriteFile(authFile, []byte(`[{"username":"admin","password":"secret","perms":["all"]},{"username":"*","perms":["ready","status"]}]`), 0644)
+	os.WriteFile(authFile, []byte(`[{"username":"admin","password":"secret","perms":["all"]},{"username":"*","perms":["ready","status"]},
+ {"username":"st","password":"pw-st","perms":["status"]},{"username":"rd","password":"pw-rd","perms":["ready"]},{"username":"q","password":"pw-q","perms":["query"]},
+ {"username":"bk","password":"pw-bk","perms":["backup"]},{"username":"jr","password":"pw-jr","perms":["join-read-replica"]},{"username":"jo","password":"pw-jo","perms":["join-read-only"]}]`), 0644)
 	streams := genStreams(c)
 	var n *procnode.Node
 	var rows int64
@@ -361,6 +384,8 @@ func run(c *vf.Ctx) {
 			keyBase = "length-prefix:unbounded-make"
 		} else if s.Class == "hollow-payload" {
 			keyBase = "hollow-payload:" + strings.Fields(strings.TrimPrefix(s.Desc, "hollow "))[0]
+		} else if s.Class == "wellformed-underprivileged" {
+			keyBase = "wellformed-underprivileged:" + strings.Fields(strings.TrimPrefix(s.Desc, "well-formed "))[0]
 		} else if s.Class == "wellformed-unauthorized" {
 			keyBase = "wellformed-unauthorized:" + strings.Fields(strings.TrimPrefix(s.Desc, "well-formed "))[0]
 		}
